@@ -675,3 +675,87 @@ func (w *World) CanarySteadyState(ns, name string) {
 		w.Mon.viol("C04", "C04.others-served", map[string]string{"phase": "pod-failed-during-canary"}, nil, map[string]any{"why": why, "rounds": 60, "evicted": victim.Name, "pods": w.podSummary(ns, name)})
 	}
 }
+
+// CanaryUnresponsiveNode (after the steady-state phase, same premises: a canary held open by manual validation,
+// neither paused nor failed): the pod of one canary node is deleted and the kubelet of that node never confirms the
+// termination, so the pod stays terminating far beyond its grace period. The node is as eligible as before: the
+// canary replica set keeps desiring a pod there (judged on every one of its status writes by C14.rs-desired) and the
+// ExtendedDaemonSet's desired keeps counting every eligible node.
+func (w *World) CanaryUnresponsiveNode(ns, name string) {
+	in, active, up := w.CanaryInProgress(ns, name)
+	e := kit.GetEDS(w.S, ns, name)
+	if !in || e == nil || active == nil || up == nil || e.Status.Canary == nil || e.Status.Canary.ReplicaSet != up.Name {
+		return
+	}
+	if e.Spec.Strategy.Canary.ValidationMode != v1.ExtendedDaemonSetSpecStrategyCanaryValidationModeManual ||
+		oracle.RSCond(up, v1.ConditionTypeCanaryFailed) || oracle.RSCond(up, v1.ConditionTypeCanaryPaused) {
+		return
+	}
+	isCanary := map[string]bool{}
+	for _, n := range e.Status.Canary.Nodes {
+		isCanary[n] = true
+	}
+	um := kit.MarkerOfTemplate(&up.Spec.Template)
+	var victim *corev1.Pod
+	for _, p := range w.DaemonPods(ns, name) {
+		if isCanary[kit.NodeOfPod(p)] && kit.IsReady(p) && p.DeletionTimestamp == nil && kit.MarkerOfPod(p) == um && (victim == nil || p.Name < victim.Name) {
+			victim = p
+		}
+	}
+	if victim == nil {
+		return
+	}
+	node := kit.NodeOfPod(victim)
+	w.Coop = true
+	if w.ForceStuck == nil {
+		w.ForceStuck = map[string]bool{}
+	}
+	w.ForceStuck[node] = true
+	w.tracef("--- canary node %s becomes unresponsive: its pod %s is deleted and stays terminating ---", node, victim.Name)
+	w.DeletePod(victim)
+	for i := 0; i < 8; i++ {
+		w.Advance(20 * time.Second)
+		w.Reconcile("ers", ns, up.Name)
+		w.Reconcile("ers", ns, active.Name)
+		w.Reconcile("eds", ns, name)
+		w.KubeletStep()
+	}
+	defer func() {
+		delete(w.ForceStuck, node)
+		w.KubeletStep()
+	}()
+	e = kit.GetEDS(w.S, ns, name)
+	in, active, up = w.CanaryInProgress(ns, name)
+	if e == nil || !in || active == nil || up == nil || e.Status.Canary == nil || w.LastErr["eds "+ns+"/"+name] != "" ||
+		oracle.RSCond(up, v1.ConditionTypeCanaryFailed) || oracle.RSCond(up, v1.ConditionTypeCanaryPaused) {
+		return
+	}
+	stillThere := false
+	for _, p := range w.DaemonPods(ns, name) {
+		if p.Name == victim.Name && p.DeletionTimestamp != nil {
+			stillThere = true
+		}
+	}
+	if !stillThere {
+		return
+	}
+	isCanary = map[string]bool{}
+	for _, n := range e.Status.Canary.Nodes {
+		isCanary[n] = true
+	}
+	want := 0
+	for _, n := range kit.Nodes(w.S) {
+		tpl := &active.Spec.Template
+		if isCanary[n.Name] {
+			tpl = &up.Spec.Template
+		}
+		if oracle.Eligible(n, &tpl.Spec) {
+			want++
+		}
+	}
+	w.Ctx.Count("C14.canary-unresponsive-node-phases-judged")
+	if int(e.Status.Desired) < want {
+		w.Mon.viol("C14", "C14.fixpoint-counts", map[string]string{"field": "desired", "phase": "canary-node-unresponsive"}, nil, map[string]any{"desired": e.Status.Desired, "eligibleNodes": want,
+			"unresponsiveCanaryNode": node, "terminatingPod": victim.Name, "eds-status": fmt.Sprintf("%+v", e.Status), "pods": w.podSummary(ns, name)})
+	}
+}
